@@ -233,6 +233,42 @@ def run(chk):
                 bound='10 object kinds x 4 microsecond patterns x 8 clock offsets (-1s..+1s) x 5 change sets')
     chk.bounded('native refusals: unmodifiable properties, non-later modified, revoked', [(k, o) for k, o in objs if k != 'dict-unregistered' and 'Relationship' not in k], check_refusals,
                 classify=lambda c: c[0], bound='each base object')
+    # ---- change sets handed over through the documented `custom_properties` keyword (objects only: for a dictionary the word is just a key): a custom property the
+    # original already carries is changed / removed like any other requested change; the keyword and custom_properties channels may be combined
+    import stix2, stix2.versioning as V
+
+    def cp_cases():
+        from stix2 import v20, v21
+        t = dtm.datetime(2020, 1, 2, 3, 4, 5, 123000, tzinfo=UTC)
+        for kind, mk in (('v21.Identity', lambda **kw: v21.Identity(name='a', identity_class='individual', created=t, modified=t, **kw)),
+                         ('v20.Identity', lambda **kw: v20.Identity(name='a', identity_class='individual', created=t, modified=t, **kw)),
+                         ('v21.Relationship', lambda **kw: v21.Relationship('identity--311b2d2d-f010-4473-83ec-1edf84858f4c', 'related-to', 'identity--c78cb6e5-0c4b-4611-8297-d1b8b55e40b5', created=t, modified=t, **kw)),
+                         ('v20.Malware', lambda **kw: v20.Malware(name='m', labels=['trojan'], created=t, modified=t, **kw))):
+            for start in ({}, {'x_custom': 'old'}, {'x_custom': 'old', 'x_other': 7}):
+                for via_kw in (False, True):
+                    obj = mk(allow_custom=True, **start) if via_kw or not start else mk(custom_properties=dict(start))
+                    for new in ('new', 'old', 0, False, '', [1, 2], {'k': 'v'}, None):
+                        for extra in ({}, {'name': 'b'}):
+                            if 'Relationship' in kind and extra: continue
+                            yield (kind, obj, start, new, extra)
+
+    def cp_check(case):
+        kind, obj, start, new, extra = case
+        before = obj.serialize()
+        try: nv = V.new_version(obj, custom_properties={'x_custom': new}, **extra)
+        except stix2.exceptions.STIXError as ex:
+            return ('step#legal change set accepted', f'{kind} carrying {start}: new_version(custom_properties={{"x_custom": {new!r}}}, **{extra}) refused: {type(ex).__name__}: {ex}', {})
+        if obj.serialize() != before: return ('step#original untouched', f'{kind}: original changed by new_version(custom_properties=...)', {})
+        jo, jn = as_json(obj), as_json(nv)
+        want = dict(jo); want.update(extra)
+        if new is None: want.pop('x_custom', None)
+        else: want['x_custom'] = new
+        for k in set(want) | set(jn):
+            if k == 'modified': continue
+            if jn.get(k) != want.get(k):
+                return ('step#exactly the requested changes (custom_properties)', f'{kind} carrying {start}: after new_version(custom_properties={{"x_custom": {new!r}}}, **{extra}) property {k} is {jn.get(k)!r}, requested {want.get(k)!r}', {})
+    chk.bounded('native step: change sets handed over through custom_properties', list(cp_cases()), cp_check, classify=lambda c: (c[0], repr(c[2]), repr(c[3]), repr(c[4])),
+                bound='4 object kinds x 3 starting sets of custom properties (given as keywords / as custom_properties) x 8 new values (incl. falsy, containers, None = removal) x with / without a keyword change')
     # ---- history: what may be changed does not depend on what was versioned before (lists of locked names are per call, never accumulated)
     import stix2, stix2.versioning as V
     from vf import objgen as G
